@@ -7,6 +7,8 @@ from ..loops import dotted, find_env_loop, strip_wrappers
 from ..nf import NF, Scope, Poly, parse_expr
 from ..repo import Repo, loc, short, AnalysisError, positional_params, param_names, bind_call
 from ..resolve import Resolver
+from ..identity import _project_expr
+from ..cfg import Def
 
 EXPLANATION = (
     "The exploration / target-smoothing samplers and the tanh head are compared as normal forms with the documented formulas "
@@ -73,8 +75,10 @@ def _cem_parts(nf, CS, env):
     """('clip', args) | ('affine', T, leaves, squared) | raises AnalysisError.  leaves: Polys whose minimum is the std (squared=False) or the variance (squared=True)."""
     got = nf.return_poly(CS, env)
     sa = got.single_atom()
-    if sa and nf.meta.get(sa, {}).get("fn") == "clip":
-        return ("clip", [x.canon() for x in nf.meta[sa].get("args", [])[1:]], sa)
+    if sa and nf.meta.get(sa, {}).get("fn") == "clip" and len(nf.meta[sa].get("args", [])) == 3:
+        a3 = [x.canon() for x in nf.meta[sa]["args"]]
+        lo = [x for x in a3[:2] if x.startswith("lb")]
+        return ("clip", [lo[0] if lo else a3[1], a3[2]], sa)
     mean_b = [a for a in got.atoms() if a.startswith("mean[")]
     if len(got.terms) != 2 or len(mean_b) != 1:
         raise AnalysisError(f"{CS}: candidates `{got.canon()[:140]}` are neither clip(., lb, ub) nor noise*std + mean (unrecognised idiom)")
@@ -184,7 +188,8 @@ def run(ck, repo: Repo, tier: str):
         got = nf.return_poly(q, _env(fn))
         a = got.single_atom() or ""
         m = nf.meta.get(a, {})
-        ok = m.get("fn") == "clip" and [x.canon() for x in m.get("args", [])[1:]] == ["action_low", "action_high"]
+        a3 = [x.canon() for x in m.get("args", [])]
+        ok = m.get("fn") == "clip" and len(a3) == 3 and a3[2] == "action_high" and "action_low" in a3[:2]
         ck.ob("R1-clip-domination", q, "returns-clip(low,high)", ok, f"return {a[:120]}", "" if ok else "the returned action is not clip(., action_low, action_high): it can leave the action space", loc(fn._module, fn))
     # factories
     for fq, target, extra in (("rl_blox.algorithm.ddpg.make_sample_actions", SA, ["exploration_noise"]), ("rl_blox.algorithm.td3.make_sample_target_actions", STA, ["exploration_noise", "noise_clip"])):
@@ -211,7 +216,25 @@ def run(ck, repo: Repo, tier: str):
         ck.need(isinstance(arg, ast.Name), f"{lq}: env.step argument is not a variable")
         ds = cfg.defs_of(L.step_node, arg.id)
         ck.need(ds, f"{lq}: action has no definition")
-        for d in ds:
+        # follow value-preserving wrappers and single-definition locals to the producing call
+        work, ds2, seen_d = list(ds), [], set()
+        while work:
+            d = work.pop()
+            if (d.node, d.name) in seen_d:
+                continue
+            seen_d.add((d.node, d.name))
+            if d.kind == "unpack" and d.value is not None and d.path:
+                pv = _project_expr(d.value, d.path)
+                if pv is not None:
+                    d = Def(d.node, d.name, "assign", pv, ())
+            v = strip_wrappers(d.value) if d.value is not None else None
+            if isinstance(v, ast.Name) and d.kind == "assign":
+                inner = cfg.defs_of(d.node, v.id)
+                if inner and all(x.kind in ("assign", "unpack") for x in inner):
+                    work += inner
+                    continue
+            ds2.append(d)
+        for d in ds2:
             v = strip_wrappers(d.value) if d.value is not None else None
             where = loc(mi, cfg.nodes[d.node].ast)
             if isinstance(v, ast.Call) and dotted(v.func) == f"{L.env}.action_space.sample":
@@ -234,10 +257,31 @@ def run(ck, repo: Repo, tier: str):
     # PETS loop
     L = find_env_loop(repo, "rl_blox.algorithm.pets.train_pets")
     arg = strip_wrappers(L.step_call.args[0])
-    for d in L.cfg.defs_of(L.step_node, arg.id):
-        v = ast.unparse(d.value)
-        ok = v in ("action_space.sample()", f"{L.env}.action_space.sample()") or v.startswith("mpc_action(mpc_config, mpc_state, mpc_optimize_fn,")
-        ck.ob("R5-planning-chain", L.qual, "step-arg", ok, f"{arg.id} = {v[:70]}", "" if ok else "PETS must execute the space sample (warm-up) or the planner's action", loc(L.mi, L.cfg.nodes[d.node].ast))
+    def _leaves(e, at, depth=0):
+        e = strip_wrappers(e)
+        if depth > 8:
+            return [(e, at)]
+        if isinstance(e, ast.IfExp):
+            return _leaves(e.body, at, depth + 1) + _leaves(e.orelse, at, depth + 1)
+        if isinstance(e, ast.Name):
+            out_ = []
+            for d_ in L.cfg.defs_of(at, e.id):
+                v_ = _project_expr(d_.value, d_.path) if d_.kind == "unpack" and d_.value is not None else d_.value
+                if d_.kind in ("assign", "unpack") and v_ is not None:
+                    out_ += _leaves(v_, d_.node, depth + 1)
+                else:
+                    out_.append((e, at))
+            return out_
+        return [(e, at)]
+    scp = Scope(L.cfg, L.mi, {"env": Poly.atom("env")}, L.qual)
+    for e_, at_ in _leaves(arg, L.step_node):
+        ok = False
+        if isinstance(e_, ast.Call) and isinstance(e_.func, ast.Attribute) and e_.func.attr == "sample" and not e_.args:
+            ok = nf.poly(e_.func.value, scp, at_).canon() in (f"{L.env}.action_space", "env.action_space")
+        elif isinstance(e_, ast.Call):
+            t_ = res.resolve(e_.func, L.mi, L.cfg, at_)
+            ok = t_ is not None and t_.qual == "rl_blox.algorithm.pets.mpc_action"
+        ck.ob("R5-planning-chain", L.qual, "step-arg", ok, f"{arg.id} <- {short(e_, 70)}", "" if ok else "PETS must execute the space sample (warm-up) or the planner's action", loc(L.mi, e_))
 
     # R3 tanh heads
     PH = "rl_blox.blox.function_approximator.policy_head."
@@ -247,13 +291,16 @@ def run(ck, repo: Repo, tier: str):
         init = repo.method(cq, "__init__", inherited=False)[1]
         mi = repo.cls(cq)._module
         vals = {}
-        for n in ast.walk(init):
-            if isinstance(n, ast.Assign) and isinstance(n.targets[0], ast.Attribute) and dotted(n.targets[0]).startswith("self.action_"):
-                vals[n.targets[0].attr] = n.value
-        sc = Scope(None, mi, {"action_space": Poly.atom("action_space")}, cq)
+        init._module = mi
+        icfg = nf.cfg_of(init)
+        for n_ in icfg.nodes:
+            n = n_.ast
+            if n_.kind == "stmt" and isinstance(n, ast.Assign) and isinstance(n.targets[0], ast.Attribute) and (dotted(n.targets[0]) or "").startswith("self.action_"):
+                vals[n.targets[0].attr] = (n.value, n_.id)
+        sc = Scope(icfg, mi, {"action_space": Poly.atom("action_space")}, cq)
         for attr, spec in (("action_scale", "nnx.Variable(jnp.array((action_space.high - action_space.low) / 2.0))"), ("action_bias", "nnx.Variable(jnp.array((action_space.high + action_space.low) / 2.0))")):
-            got = nf.poly(vals[attr], sc, None) if attr in vals else None
-            want = nf.poly(parse_expr(spec), sc, None)
+            got = nf.poly(vals[attr][0], sc, vals[attr][1]) if attr in vals else None
+            want = nf.poly(parse_expr(spec), Scope(None, mi, {"action_space": Poly.atom("action_space")}, cq), None)
             ok = got is not None and got == want
             ck.ob("R3-tanh-head", f"{cq}.__init__", attr, ok, f"{attr} = {got.canon()[:100] if got is not None else None}", "" if ok else f"must be {want.canon()}: otherwise tanh(y)*scale+bias leaves [low, high]", loc(mi, init))
     # wrappers that reach the tanh head
@@ -310,6 +357,8 @@ def run(ck, repo: Repo, tier: str):
         want = {"n_population": "n_samples", "lb": "vstack((action_space.low))" , "ub": "vstack((action_space.high))"}
         lbv, ubv = kws.get("lb", ""), kws.get("ub", "")
         okb = "action_space.low" in lbv and "action_space.high" not in lbv and "action_space.high" in ubv and "action_space.low" not in ubv and lbv.startswith("vstack(") and ubv.startswith("vstack(")
+        if not okb and not ("action_space.high" in lbv and "action_space.low" not in lbv) and not ("action_space.low" in ubv and "action_space.high" not in ubv):
+            raise AnalysisError(f"{q}: bounds handed to the CEM sampler (`{lbv[:60]}` / `{ubv[:60]}`) are built in a way this check does not follow")
         ck.ob("R5-planning-chain", q, "bounds-from-action-space", okb, f"lb = {lbv[:60]}, ub = {ubv[:60]}", "" if okb else "lb / ub must be action_space.low / .high stacked over the horizon (not swapped)", loc(mi, fn))
         ukw = {k: nf.poly(v, sc, rets[0].id).canon() for k, v in tu.kwargs.items()}
         oka = set(ukw) == {"n_elite", "alpha"} and ukw["alpha"] == "alpha"
@@ -318,13 +367,43 @@ def run(ck, repo: Repo, tier: str):
     q = "rl_blox.algorithm.pets.mpc_action"
     fn = repo.func(q)
     mi = fn._module
-    rets = [n for n in ast.walk(fn) if isinstance(n, ast.Return)]
-    ok = len(rets) == 1 and ast.unparse(rets[0].value) == "plan[0]"
-    ck.ob("R5-planning-chain", q, "returns-first-plan-step", ok, f"return {ast.unparse(rets[0].value) if rets else None}", "" if ok else "the executed action must be the first step of the optimised plan", loc(mi, fn))
-    txt = "\n".join(ast.unparse(s) for s in fn.body)
-    ok = "plan = optimize_fn(state.dynamics_model, plan, opt_key, obs)" in txt and "state.prev_plan = jnp.concatenate((plan[1:], config.avg_act[jnp.newaxis]), axis=0)" in txt \
-        and "plan = jnp.broadcast_to(config.avg_act, state.prev_plan.shape)" in txt and "plan = state.prev_plan" in txt
-    ck.ob("R5-planning-chain", q, "plan-shift-and-padding", ok, "plan optimised from prev_plan / mid-point; shifted plan padded with the mid-point", "" if ok else "initial plan and padding must be the in-box mid-point avg_act, the plan the optimiser's result", loc(mi, fn))
+    from ..sympath import enumerate_paths, PathEval
+    cfgm = nf.cfg_of(fn)
+    retn = [n for n in cfgm.nodes if n.kind == "stmt" and isinstance(n.ast, ast.Return)]
+    ck.need(len(retn) == 1, f"{q}: expected one return")
+    nfm = NF(repo, inline_depth=1, inline_calls=False)
+    envm = _env(fn)
+    sigs = set()
+    for pth in enumerate_paths(cfgm, cfgm.entry, {retn[0].id}):
+        pe = PathEval(nfm, cfgm, mi, q, envm).run(pth[:-1])
+        rvp = pe.ev(retn[0].ast.value)
+        rv = rvp.canon() if rvp.single_atom() is not None else "<compound> " + rvp.canon()
+        prev = pe.store.get("state.prev_plan")
+        sigs.add((rv, prev.canon() if prev is not None else None))
+    oks, okp = True, True
+    init_forms = set()
+    for rv, prev in sigs:
+        # returned action: first step of the optimiser's result
+        if not (rv.startswith("optimize_fn(") and rv.endswith(")[0]")):
+            oks = False
+            continue
+        a = nfm.meta.get(rv[:-3], {})
+        init = a["args"][1].canon() if len(a.get("args", [])) > 1 else "?"
+        init_forms.add(init)
+        want_prev = f"concatenate(({rv[:-3]}[1:], config.avg_act[jax.numpy.newaxis]), axis=0)"
+        if prev != want_prev:
+            okp = False
+    ck.ob("R5-planning-chain", q, "returns-first-plan-step", oks, f"return {sorted(s_[0][:60] for s_ in sigs)}", "" if oks else "the executed action must be the first step of the optimised plan", loc(mi, fn))
+    good_init = {"state.prev_plan", "broadcast_to(config.avg_act, state.prev_plan.shape)"}
+    if not oks:
+        return_only = True
+    oki = init_forms <= good_init and (len(init_forms) >= 1 or not oks)
+    if oks and not oki and not any("avg_act" in f or "prev_plan" in f for f in init_forms):
+        raise AnalysisError(f"{q}: initial plan `{sorted(init_forms)}` not recognised")
+    if oks and not okp and any(p_ is not None and "concatenate" not in p_ for _, p_ in sigs):
+        raise AnalysisError(f"{q}: stored plan `{[p_ for _, p_ in sigs][:1]}` not recognised")
+    if oks:
+      ck.ob("R5-planning-chain", q, "plan-shift-and-padding", oki and okp, f"initial plan {sorted(init_forms)}; prev_plan' = shifted result padded with avg_act: {okp}", "" if oki and okp else "initial plan and padding must be the in-box mid-point avg_act, the plan the optimiser's result", loc(mi, fn))
     q = "rl_blox.algorithm.pets._pets_optimize"
     fn = repo.func(q)
     rets = [n for n in ast.walk(fn) if isinstance(n, ast.Return)]
@@ -347,13 +426,15 @@ def run(ck, repo: Repo, tier: str):
     cfgc = [c for c in ast.walk(fn) if isinstance(c, ast.Call) and dotted(c.func) == "PETSMPCConfig"]
     ck.need(len(cfgc) == 1, f"{q}: PETSMPCConfig construction not found")
     kw = {k.arg: k.value for k in cfgc[0].keywords}
-    sc = Scope(None, mi, {"env": Poly.atom("env")}, q)
-    got = nf.poly(kw["avg_act"], sc, None) if "avg_act" in kw else None
-    want = nf.poly(parse_expr("jnp.asarray(0.5 * (env.action_space.high + env.action_space.low))"), sc, None)
+    cfgt = nf.cfg_of(fn)
+    at_cfg = cfgt.node_of(cfgc[0]).id
+    sc = Scope(cfgt, mi, {"env": Poly.atom("env")}, q)
+    got = nf.poly(kw["avg_act"], sc, at_cfg) if "avg_act" in kw else None
+    want = nf.poly(parse_expr("jnp.asarray(0.5 * (env.action_space.high + env.action_space.low))"), Scope(None, mi, {"env": Poly.atom("env")}, q), None)
     ok = got is not None and got == want
     ck.ob("R5-planning-chain", q, "mid-point", ok, f"avg_act = {got.canon()[:80] if got is not None else None}", "" if ok else "avg_act must be the mid-point 0.5*(high+low) of the action space", loc(mi, cfgc[0]))
     init = [c for c in ast.walk(fn) if isinstance(c, ast.Call) and dotted(c.func) == "_init_mpc_optimizer_cem"]
-    ok = len(init) == 1 and init[0].args and ast.unparse(init[0].args[0]) == "env.action_space"
+    ok = len(init) == 1 and init[0].args and nf.poly(init[0].args[0], sc, cfgt.node_of(init[0]).id).canon() == "env.action_space"
     ck.ob("R5-planning-chain", q, "optimizer-space", ok, f"{short(init[0], 70) if init else None}", "" if ok else "the CEM bounds must come from env.action_space", loc(mi, fn))
 
 
